@@ -106,6 +106,22 @@ Fixpoint lex (fuel : nat) (asis : bool) (s : str) : option (list tok) :=
   end.
 
 (** ** parser *)
+
+(** As-is only: in the generated lexer the hyphen of the five hyphenated keywords also
+    matches the other non-letter name characters (digits, '.', '_', ...), so that
+    [following5sibling::*] is read as the following-sibling axis. *)
+Fixpoint kw_match (k n : str) : bool :=
+  match k, n with
+  | [], [] => true
+  | c :: k', d :: n' =>
+      (if N.eqb c 45 then name_char true d && negb (is_letter d) && negb (N.eqb d 35) else N.eqb c d) && kw_match k' n'
+  | _, _ => false
+  end.
+Definition hyphenated_keywords : list str :=
+  [lit "ancestor-or-self"; lit "descendant-or-self"; lit "following-sibling"; lit "preceding-sibling"; lit "processing-instruction"].
+Definition kw (asis : bool) (n : str) : str :=
+  if asis then match find (fun k => kw_match k n) hyphenated_keywords with Some k => k | None => n end else n.
+
 Definition axis_of_name (n : str) : option axis :=
   if str_eqb n (lit "child") then Some Child else if str_eqb n (lit "descendant") then Some Descendant
   else if str_eqb n (lit "descendant-or-self") then Some DescendantOrSelf else if str_eqb n (lit "parent") then Some Parent
@@ -123,7 +139,8 @@ Definition is_operator_name (n : str) : bool :=
 (** a name usable as a name test / function name / prefix; the generated lexer reserves
     the operator names everywhere and keeps axis names and node types out of function names *)
 Definition name_ok (asis : bool) (n : str) : bool := negb (asis && is_operator_name n).
-Definition fname_ok (asis : bool) (n : str) : bool :=
+Definition fname_ok (asis : bool) (n0 : str) : bool :=
+  let n := kw asis n0 in
   negb (is_node_type n) && negb (asis && (is_operator_name n || match axis_of_name n with Some _ => true | None => false end)).
 
 Definition op_at (lvl : nat) (t : tok) : option (expr -> expr -> expr) :=
@@ -151,7 +168,7 @@ Definition starts_step (asis : bool) (ts : list tok) : bool :=
     part of a function name *)
 Definition reserved_word (n : str) : bool :=
   is_operator_name n || is_node_type n || match axis_of_name n with Some _ => true | None => false end.
-Definition pfname_ok (asis : bool) (p n : str) : bool := negb (asis && (reserved_word p || reserved_word n)).
+Definition pfname_ok (asis : bool) (p n : str) : bool := negb (asis && (reserved_word (kw asis p) || reserved_word (kw asis n))).
 
 (** does a primary expression start here (a function call, not a node type)? *)
 Definition starts_primary (asis : bool) (ts : list tok) : bool :=
@@ -169,12 +186,13 @@ Section Parser.
     match ts with
     | TStar :: TColon :: TName l :: r => if name_ok asis l then Some (NTLocalAny l, r) else None
     | TStar :: r => Some (NTAny, r)
-    | TName n :: TLPar :: TRPar :: r =>
+    | TName n0 :: TLPar :: TRPar :: r =>
+        let n := kw asis n0 in
         if str_eqb n (lit "node") then Some (NTNode, r) else if str_eqb n (lit "text") then Some (NTText, r)
         else if str_eqb n (lit "comment") then Some (NTComment, r)
         else if str_eqb n (lit "processing-instruction") then Some (NTPI, r) else None
     | TName n :: TLPar :: TLiteral s :: TRPar :: r =>
-        if str_eqb n (lit "processing-instruction") then Some (NTPITarget s, r) else None
+        if str_eqb (kw asis n) (lit "processing-instruction") then Some (NTPITarget s, r) else None
     | TName p :: TColon :: TStar :: r => if name_ok asis p then Some (NTNsAny p, r) else None
     | TName p :: TColon :: TName l :: r => if name_ok asis p && name_ok asis l then Some (NTQName p l, r) else None
     | TName l :: r => if name_ok asis l then Some (NTName l, r) else None
@@ -290,7 +308,7 @@ Section Parser.
         | TDot :: r => Some (SAxis Self NTNode [], r)
         | TDotDot :: r => Some (SAxis Parent NTNode [], r)
         | TAt :: r => with_test Attribute r
-        | TName a :: TColonColon :: r => match axis_of_name a with Some ax => with_test ax r | None => None end
+        | TName a :: TColonColon :: r => match axis_of_name (kw asis a) with Some ax => with_test ax r | None => None end
         | TName n :: TLPar :: r =>
             if fname_ok asis n then
               match parse_args f r with Some (args, r2) => Some (SCall (None, n) args, r2) | None => None end
